@@ -221,6 +221,13 @@ func (p *populator) fill(v reflect.Value, pt pathT) {
 		s := reflect.MakeSlice(t, n, n+extra)
 		fmt.Fprintf(&p.shape, "S%d", n)
 		for i := 0; i < n; i++ {
+			if k := t.Elem().Kind(); i > 0 && (k == reflect.Interface || k == reflect.Ptr) && !s.Index(i-1).IsNil() && p.r.Intn(4) == 0 {
+				// what real programs do: one and the same instance referenced by neighbouring elements
+				// (l := NewList(Int); fields {l, l}); the copy must not point back into the original for it
+				s.Index(i).Set(s.Index(i - 1))
+				p.shape.WriteString("=")
+				continue
+			}
 			p.fill(s.Index(i), pt.index(i))
 		}
 		v.Set(s)
